@@ -97,7 +97,7 @@ def _transports(ctx, c, direction, length, retry=True):
     idev.execute(c)
     t = env.ENV.iscsi_tasks[-1]
     ctx.check("iSCSI: task carries the command's cdb object", t.cdb is c.cdb)
-    ctx.check("iSCSI: the task is addressed to the URL's logical unit", t.lun is env.ENV.lun)
+    ctx.check("iSCSI: the task is addressed to the URL's logical unit", t.lun == ctx.oracle(env.ENV.lun))
     ctx.check("iSCSI: binding receives the command's dataout object", t.dataout is c.dataout)
     ctx.check("iSCSI: binding receives the command's datain object", t.datain is c.datain)
     want_dir = {"none": 0, "in": 1, "out": 2}
